@@ -17,6 +17,7 @@ type Value interface{}
 //   Path - leaf-path prefix inside the object / element
 //   Elem - the Go type pointed to
 type Ptr struct {
+	Opaque bool // value observed inside a callee whose trace is invisible: location shape unknown
 	Mem  string
 	Ref  *Term
 	Idx  *Term
